@@ -53,6 +53,14 @@ def main(argv=None) -> int:
         if got is None or not set(names) <= got:
             raise MachineryError(f"renderer/projection disagree on the surface of a Surface.tla case: {names} vs {got}\n{text}")
         items.append((f"surface:{i}", text, {"safe": True}))
+        if i % 6 == 0:
+            # the same module formatted without safe first, in the same process
+            items.append((f"after-unsafe:surface:{i}", text, {"safe": True}))
+        if i % 9 == 0:
+            # definitions behind a module-level statement that nothing gets past (a deprecated shim, a worker loop)
+            prefix = ['raise ImportError("this module has moved")\n\n\n', "while True:\n    pass\n\n\n", 'assert False, "deprecated"\n\n\n',
+                      'if True:\n    raise SystemExit(2)\n\n\n'][i // 9 % 4]
+            items.append((f"surface-behind-block:{i}", prefix + text, {"safe": True}))
     items += [(k, s, {"safe": True}) for k, s, _ in
               pipecheck.standard_inputs(rep, t, rng, shapes_on=True, snippets="all" if t != "quick" else "400",
                                         stdlib=20 if t == "quick" else 200)]
